@@ -31,6 +31,27 @@
                    the model, which goes through no glue): every row, in order, every cell unconverted.
          [agree] = the observation is what Model/Workbook.v computes from the content through the glue rules of
                    Gen/ImplParams.v.
+     (3 fmt table (sheet table) (width ...) (pass ...) fileobs)
+         SEVERAL PASSES over the rows of one Sheet object (Model/WorkbookPasses.v).  One table stored in ONE format (codes as
+         above; for Numbers under the given sheet and table name, otherwise that pair is ignored; the widths only for the fixed
+         formats); pass = -1 a complete pass list(sheet.rows()), k >= 0 list(islice(sheet.rows(), k)) and the iterator
+         abandoned; fileobs as above except that a sheetobs is (name (rows rows ...)): one rows per pass.
+         [good]  = EVERY pass shows the table's rows from the first on (all of them, or the first k), by name: the stored
+                   table does not change between the passes (Spec/TransparencyPasses.v [take_rows]).
+         [agree] = the observation is what Model/WorkbookPasses.v computes.
+         [known] = 2 (K-second-pass-differs) when the format is read from an open file (CSV, TAB, NDJSON, fixed text, EBCDIC)
+                   AND the case has a second pass; with [verdict] the finding is reported only when the observation is
+                   exactly the model's continuation, anything else is a VIOLATION.  The in-memory formats (XLSX, ODS,
+                   Numbers) enjoy no exemption.
+     (4 fmt content ((key ...) ...) (pass ...) ((name (rows rows ...)) ...))
+         the passes of case 3 over EVERY sheet of a workbook of typed cells or of a sample file of the repository (fmt, content,
+         probe names as in case 2; XLS included: the read-only sample).  All four formats are in-memory: no exemption.
+         [good]  = every pass over every stored sheet reads as the first rows of that sheet read when handed to Sheet.row_iter as
+                   the rows it holds (the single-sheet path of the model: no glue, nothing remembered between passes).
+         [agree] = what Model/WorkbookPasses.v computes from the content through the glue rules of Gen/ImplParams.v.
+   EBCDIC files of stream 0 whose explicit lrecl (RECFM F / FB) exceeds the layout: the image must be the PADDED writer's
+   output (Spec/TransparencyPasses.v write_ebcdic_padded) for the fillers found in the image itself; recfm 2 = the alias
+   RECFM_FB of RECFM_F.
    [good]  = every file of every format shows exactly the abstract workbook (Spec/Transparency.v:
              sheets by name and order, [cells_by_name] for every row; the padded table for the fixed
              formats; sheet::table for Numbers).
@@ -42,7 +63,8 @@
 From Coq Require Import ZArith NArith List Bool Arith.
 Import ListNotations.
 Require SR.Spec.Table.
-Require Import SR.Base.Sx SR.Base.Res SR.Spec.Transparency SR.Model.HeaderRow SR.Model.Workbook.
+Require Import SR.Base.Sx SR.Base.Res SR.Spec.Transparency SR.Spec.TransparencyPasses SR.Model.HeaderRow SR.Model.Workbook
+  SR.Model.WorkbookPasses.
 Open Scope Z_scope.
 
 (* ---------------------------------------------------------------- equality tests *)
@@ -164,12 +186,22 @@ Definition tri_and (a b : tri) : tri :=
   let '(w1, g1, a1) := a in let '(w2, g2, a2) := b in (w1 && w2, g1 && g2, a1 && a2).
 Definition tri_all (l : list tri) : tri := fold_right tri_and (true, true, true) l.
 
-Definition recfm_of (z : Z) : recfm := if z =? 1 then RECFM_F else RECFM_N.
+Definition recfm_of (z : Z) : recfm := if (z =? 1) || (z =? 2) then RECFM_F else RECFM_N.     (* 2 = RECFM_FB, the same class *)
 Definition lrecl_of (z : Z) : option nat := if z <? 0 then None else Some (Z.to_nat z).
 
 (* is the registry still selecting the reader of this format *)
 Definition reader_ok (f : fmt) : bool :=
   match reader_for f with Ok g => fmt_eqb f g | Err _ => false end.
+
+(* the EBCDIC image is what the Coq writer produces: records back to back, or - RECFM F / FB with an explicit lrecl beyond the
+   end of the layout - every record followed by lrecl - (end of the layout) filler bytes, whatever they are *)
+Definition ebcdic_image_ok (widths : list nat) (T : table) (fo : fileobs) : bool :=
+  let used := list_sum widths in
+  let lr := Z.to_nat (fo_lrecl fo) in
+  if ((fo_recfm fo =? 1) || (fo_recfm fo =? 2)) && (used <? lr)%nat
+  then let fill := fillers_of lr used (fo_image fo) in
+       fill_ok (lr - used) T fill && list_eqb N.eqb (fo_image fo) (write_ebcdic_padded T widths fill)
+  else list_eqb N.eqb (fo_image fo) (write_ebcdic T widths).
 
 Definition judge_single (f : fmt) (widths : list nat) (T : table) (fo : fileobs) : tri :=
   let o := fo_obs fo in
@@ -182,7 +214,7 @@ Definition judge_single (f : fmt) (widths : list nat) (T : table) (fo : fileobs)
        obs_eqb o (read_fixed (fo_image fo) (layout_of hs widths) hs))
   | F_EBCDIC =>
       let Tp := pad_table widths T in
-      (fits widths T && repertoire_ok T && list_eqb N.eqb (fo_image fo) (write_ebcdic T widths),
+      (fits widths T && repertoire_ok T && ebcdic_image_ok widths T fo,
        good_obs [([], Tp)] o,
        obs_eqb o (read_ebcdic (recfm_of (fo_recfm fo)) 0%N (lrecl_of (fo_lrecl fo)) (fo_image fo)
                               (layout_of hs widths) hs))
@@ -301,9 +333,113 @@ Definition judge_typed (c : sx) : sx :=
   let detail := L [A f; of_bool good; of_bool agree] in
   if wf then verdict known good agree br detail else L [A 9; A br; detail].
 
+(* ---------------------------------------------------------------- several passes over one Sheet *)
+Definition dec_obs_passes (x : sx) : obs_passes :=
+  map (fun s => (as_Ns (nth_sx 0 s), map dec_rows (as_list (nth_sx 1 s)))) (as_list x).
+
+Definition obs_passes_eqb : obs_passes -> obs_passes -> bool :=
+  list_eqb (fun a b => key_eqb (fst a) (fst b) && list_eqb rows_eqb (snd a) (snd b)).
+
+Definition pass_of (z : Z) : option nat := if z <? 0 then None else Some (Z.to_nat z).
+
+(* every pass shows the first rows of the table (all of them for a complete pass) *)
+Fixpoint good_passes (name : text) (T : table) (pat : passes) (os : list rows_obs) : bool :=
+  match pat, os with
+  | [], [] => true
+  | k :: pat', o :: os' =>
+      good_sheet name (mk_table (t_header T) (take_rows k (t_rows T))) (name, o) && good_passes name T pat' os'
+  | _, _ => false
+  end.
+
+Definition good_obs_passes (name : text) (T : table) (pat : passes) (o : obs_passes) : bool :=
+  match o with
+  | [s] => key_eqb (fst s) name && good_passes name T pat (snd s)
+  | _ => false
+  end.
+
+Definition judge_passes (c : sx) : sx :=
+  let fz := as_Z (nth_sx 1 c) in
+  let T := dec_table (nth_sx 2 c) in
+  let tname := as_Ns (nth_sx 0 (nth_sx 2 c)) in
+  let st := (as_Ns (nth_sx 0 (nth_sx 3 c)), as_Ns (nth_sx 1 (nth_sx 3 c))) in
+  let widths := as_nats (nth_sx 4 c) in
+  let pz := as_Zs (nth_sx 5 c) in
+  let pat := map pass_of pz in
+  let fx := nth_sx 6 c in
+  let extra := nth_sx 0 fx in
+  let image := as_Ns (nth_sx 0 extra) in
+  let o := dec_obs_passes (nth_sx 1 fx) in
+  let hs := t_header T in
+  let nrows := length (t_rows T) in
+  match fmt_of fz with
+  | None => L [A 9; A (-1); L []]
+  | Some f =>
+      let '(wf, good, agree) :=
+        match f with
+        | F_FIXED =>
+            (fits widths T && line_safe T && list_eqb N.eqb image (write_fixed_text T widths),
+             good_obs_passes [] (pad_table widths T) pat o,
+             obs_passes_eqb o (read_fixed_passes image (layout_of hs widths) hs pat))
+        | F_EBCDIC =>
+            (fits widths T && repertoire_ok T && list_eqb N.eqb image (write_ebcdic T widths),
+             good_obs_passes [] (pad_table widths T) pat o,
+             obs_passes_eqb o (read_ebcdic_passes (recfm_of (as_Z (nth_sx 1 extra))) 0%N (lrecl_of (as_Z (nth_sx 2 extra)))
+                                                  image (layout_of hs widths) hs pat))
+        | F_NUMBERS =>
+            let d := numbers_of [(tname, T)] [st] in
+            let Wn := flatten_numbers d in
+            (splits_back st,
+             good_obs_passes (composite (fst st) (snd st)) T pat o,
+             reader_ok f && obs_passes_eqb o (read_header_passes (phys_numbers d) (headers Wn) pat))
+        | _ =>
+            let name := if single_sheet f then [] else tname in
+            (true,
+             good_obs_passes name T pat o,
+             reader_ok f && obs_passes_eqb o (facade_passes f (phys f [(name, T)]) [hs] pat))
+        end in
+      let wf := wf && wf_table T && forallb (fun z => -1 <=? z) pz in
+      let known := if file_backed f && has_second_pass pat then Some 2 else None in
+      let br := match nrows with O => 0 | _ => if in_memory f then 7 else 8 end in
+      let detail := L [A fz; of_bool good; of_bool agree] in
+      if wf then verdict known good agree br detail else L [A 9; A br; detail]
+  end.
+
+(* ---------------------------------------------------------------- several passes, typed cells and the sample files *)
+(* every stored sheet handed to Sheet.row_iter as the rows it holds, once per pass: no glue, nothing remembered *)
+Fixpoint plain_passes (ss : list (key * sheet)) (probes : list (list key)) (i : nat) (pat : passes) : obs_passes :=
+  match ss with
+  | [] => []
+  | (n, rows) :: t =>
+      (n, map (fun k => take_obs k (read_sheet_header (C_single rows) [] (probes_at probes i))) pat)
+      :: plain_passes t probes (S i) pat
+  end.
+
+Definition judge_typed_passes (c : sx) : sx :=
+  let f := as_Z (nth_sx 1 c) in
+  let probes := map (fun p => map as_Ns (as_list p)) (as_list (nth_sx 3 c)) in
+  let pz := as_Zs (nth_sx 4 c) in
+  let pat := map pass_of pz in
+  let o := dec_obs_passes (nth_sx 5 c) in
+  let d := dec_numbers (nth_sx 2 c) in
+  let b := dec_book (nth_sx 2 c) in
+  let numbers := f =? 4 in
+  let wf := (numbers || (f =? 2) || (f =? 3) || (f =? 5)) && forallb (fun z => -1 <=? z) pz in
+  let stored := if numbers then flat_map (fun s => map (fun t => (composite (fst s) (fst t), snd t)) (snd s)) d else b in
+  let content := if numbers then C_numbers d else C_multi (if f =? 3 then B_ODS else if f =? 5 then B_XLS else B_XLSX) b in
+  let fm := if numbers then F_NUMBERS else if f =? 3 then F_ODS else if f =? 5 then F_XLS else F_XLSX in
+  let good := obs_passes_eqb o (plain_passes stored probes 0 pat) in
+  let agree := reader_ok fm && obs_passes_eqb o (read_header_passes content probes pat) in
+  let known := if numbers && existsb (fun s => existsb (fun t => negb (splits_back (fst s, fst t))) (snd s)) d
+               then Some 1 else None in
+  let br := if existsb (fun s => (2 <=? length (snd s))%nat) stored then 7 else 0 in
+  let detail := L [A f; of_bool good; of_bool agree] in
+  if wf then verdict known good agree br detail else L [A 9; A br; detail].
+
 Definition judge (c : sx) : sx :=
   let stream := as_Z (nth_sx 0 c) in
   if stream =? 0 then judge_tables c
   else if stream =? 1 then judge_sample c
   else if stream =? 2 then judge_typed c
+  else if stream =? 3 then judge_passes c
+  else if stream =? 4 then judge_typed_passes c
   else L [A 9; A (-1); L []].
